@@ -5,7 +5,7 @@
 use std::collections::HashMap;
 use std::sync::Mutex;
 
-static CACHE: Mutex<Option<HashMap<(String, u32), (String, String)>>> = Mutex::new(None);
+static CACHE: Mutex<Option<HashMap<(String, u32, u32), (String, String)>>> = Mutex::new(None);
 static FILES: Mutex<Option<HashMap<String, Vec<String>>>> = Mutex::new(None);
 
 fn is_ident(c: char) -> bool {
@@ -16,7 +16,21 @@ const METHODS: [&str; 9] = [
     ".load(", ".store(", ".swap(", ".fetch_add(", ".fetch_sub(", ".compare_exchange_weak(", ".compare_exchange(", "ogre_sync::lock(", "ogre_sync::unlock(",
 ];
 
-fn field_of(line: &str) -> String {
+fn field_of(line: &str, col: u32) -> String {
+    // the column of a #[track_caller] location points at the method name of the call: `self.tail.load(..)`
+    //                                                                                            ^
+    let c = col as usize;
+    if c >= 2 && c <= line.len() && line.is_char_boundary(c - 1) {
+        let at = &line[c - 1..];
+        let is_method = ["load(", "store(", "swap(", "fetch_add(", "fetch_sub(", "compare_exchange_weak(", "compare_exchange("].iter().any(|m| at.starts_with(m));
+        if is_method && line[..c - 1].ends_with('.') {
+            let before = &line[..c - 2];
+            let id: String = before.chars().rev().take_while(|ch| is_ident(*ch)).collect::<String>().chars().rev().collect();
+            if !id.is_empty() {
+                return id;
+            }
+        }
+    }
     for m in METHODS.iter() {
         if let Some(pos) = line.find(m) {
             if m.starts_with("ogre_sync") {
@@ -55,8 +69,8 @@ fn fn_of(lines: &[String], line_idx: usize) -> String {
     String::new()
 }
 
-pub fn lookup(file: &str, line: u32) -> (String, String) {
-    let key = (file.to_string(), line);
+pub fn lookup(file: &str, line: u32, col: u32) -> (String, String) {
+    let key = (file.to_string(), line, col);
     {
         let c = CACHE.lock().unwrap();
         if let Some(m) = c.as_ref() {
@@ -78,7 +92,7 @@ pub fn lookup(file: &str, line: u32) -> (String, String) {
     });
     let res = if (line as usize) >= 1 && (line as usize) <= lines.len() {
         let idx = line as usize - 1;
-        (fn_of(lines, idx), field_of(&lines[idx]))
+        (fn_of(lines, idx), field_of(&lines[idx], col))
     } else {
         (String::new(), String::new())
     };
